@@ -125,6 +125,7 @@ var c04Keys2 = []string{"]", "}", `"`, "\\", string(rune(0xE9))}
 var c04Bad = []string{"\x80", "\xBF", "\xC3", "\xE2\x82", "\xF0\x9F\x98", "\xC0\x80", "\xE0\x80\x80", "\xED\xA0\x80", "\xF4\x90\x80\x80", "\xF8", "\xFF"}
 
 func runC04(c *ev.Ctx) {
+	defer sizeSweep(c, "C04")
 	L := 5
 	depthMax := 10000
 	if c.Thorough() {
